@@ -118,6 +118,39 @@ CLAIMED = {
    note="Trusted: Coq kernel; hand model; generated Gen/ErrorMap.v (translator tools/gen_errormap.py). No axioms.",
    technique="Coq case analysis over the model + generated error map; differential run vs Rust; API run with independent oracle",
    ref="5 C07"),
+ "C03": dict(
+   text="Coq theorems C03_*: every API call is turned into the request it names (C03_call_is_request: PDU type, OIDs parsed per C08 in order, "
+        "GetBulk non-repeaters 0 and the iterator's max-repetitions), request ids lie in 0..2^31-1, the community datagram is exactly the "
+        "reference encoding enc_cmsg (or OutOfBuffer when it exceeds the buffer) independently of the pooled buffer it is built in "
+        "(C03_community_emit, C03_history_independent, C03_pool_always_reset), the v3 plain datagram is exactly enc_v3 with the socket's engine "
+        "id / boots / time / user (C03_v3_emit_plain; flags and ids for every security level: C03_v3_state_and_flags), fetch policy and "
+        "max_repetitions default; the reference encodings decode back (C03_strict_roundtrip_*).  ~200 datagrams of 8 concurrent sessions with "
+        "interleaved calls are strictly decoded by an independent decoder and reproduced octet for octet by the extracted model (incl. HMAC, DES, AES).",
+   note="Trusted: Coq kernel; hand model tied by differential execution; random ids/salts read from the wire; for authenticated/encrypted "
+        "messages the emitted octets are proved in C09/C11 and checked here by correspondence. No axioms.",
+   technique="Coq refinement of the emit path to reference encodings + pool invariant; API correspondence with an independent strict decoder",
+   ref="5 C03"),
+ "C10": dict(
+   text="KNOWN FINDING (three classes listed in known_findings.json: MAC not verified, auth flag not required, plaintext accepted with privacy). "
+        "Coq theorems: C10_accept_char (the complete acceptance condition of unwrap_pdu: user, engine id, msgID, request-id, successful decrypt - "
+        "nothing else), C10_refuted (the full statement is false of the faithful model: witnesses with no MAC and with a zero MAC, by vm_compute), "
+        "C10_ignores_auth, C10_modulo_known (wrong user / engine id / msgID / request-id are never delivered; only a Report bypasses the "
+        "request-id test; encrypted data must decrypt), and the v3 receive-loop characterisation.  92+ forged and mismatching replies against "
+        "real sessions; a delivered forgery outside the listed classes, or a dropped genuine reply, is a fresh violation.",
+   note="The defect is recorded, not repaired: a repair needs the raw datagram in unwrap_pdu (trait change over the three socket types), a "
+        "verify method on the auth trait and a security-level check (~40 lines, 6 files), and cannot be validated against a real agent offline. No axioms.",
+   technique="Coq acceptance characterisation + refutation witness + modulo-known theorem; forged-reply API run with independent hmac oracle",
+   ref="5 C10"),
+ "C13": dict(
+   text="Coq theorems C13_*: the engine id is adopted from the first accepted message iff the socket has none and never changes afterwards "
+        "(C13_adopt_once, C13_engine_id_stable), user and keys never change on the receive/send path (C13_identity_stable), boots/time equal "
+        "those of the most recent accepted message after ANY history (C13_time_follows), every emitted request is stamped with them "
+        "(C13_stamp, C13_stamp_decodes_back), set_keys localises to the learned engine id (C13_relocalize), and the Python refresh protocol: "
+        "probe -> Report -> set_keys -> probe (C13_refresh_discovery), no-op when not needed, time sync.  57+ real sessions (all digests x "
+        "ciphers x key types x given/discovered x sync/async) against an agent with generated identity and a moving clock.",
+   note="Trusted: Coq kernel; hand model of socket/v3.rs and of the v3 parts of client.py/user.py tied by the API run; keys checked with hashlib/hmac. No axioms.",
+   technique="Coq state-machine invariants by induction over event histories; API run with independent key derivation and MAC check",
+   ref="5 C13"),
 }
 
 PENDING = "check not built yet in this round (see DESIGN.md section 7 for the order of work)"
